@@ -646,6 +646,23 @@ func LockDepth(d int) {
 	t.lockDepth += d
 }
 
+// Deadlock is the panic value raised when the code under test blocks on a mutex that, in a
+// simulation, nobody can release any more (it was leaked on some return path, or is re-entered).
+type Deadlock struct{ At string }
+
+// MutexLock replaces x.Lock() / x.RLock() in the code under test.
+func MutexLock(lock func(), try func() bool, at string) {
+	t := cur
+	if t == nil {
+		lock()
+		return
+	}
+	if !try() {
+		panic(Deadlock{at})
+	}
+	t.lockDepth++
+}
+
 // OpBegin resets the per-operation counters of the current task and sets its step cap (0 = none).
 //
 //go:norace
